@@ -151,8 +151,8 @@ def render(i, s):
         i, tyc, "true" if lazy else "false", arity, k, finc, MATCH[mk][1] if mk else "M_NONE", "true" if w else "false", nfx,
         TIMES[tm][1], TIMES[tm][2], TIMES[tm][3], "true" if seq else "false", "true" if b_first else "false",
         {"PLAIN": "B_PLAIN", "CORO": "B_CORO", None: "B_NONE"}[bk], b_arity, b_k, text)
-    return ("static void s%d(Ctx& c) { static const SiteInfo I%s; if (c.begin(I)) return; SITE_PROLOGUE; %s "
-            "c.drive(eA.get(), %s, %s, %s); }" % (i, info, exps.strip(), call_expr(arity, ty, lazy), eB, callB))
+    return ("#if Q_HAS(%d)\nvoid s%d(Ctx& c) { static const SiteInfo I%s; if (c.begin(I)) return; SITE_PROLOGUE; %s "
+            "c.drive(eA.get(), %s, %s, %s); }\n#endif" % (i, i, info, exps.strip(), call_expr(arity, ty, lazy), eB, callB))
 
 
 def build_sites():
@@ -218,8 +218,9 @@ def build_sites():
 
 def main():
     sites = build_sites()
-    lines = [render(i, s) for i, s in enumerate(sites)]
-    lines.append("static void (*const g_sites[])(Ctx&) = {%s};" % ", ".join("s%d" % i for i in range(len(sites))))
+    lines = ["void %s;" % ", ".join("s%d(Ctx&)" % i for i in range(len(sites)))]
+    lines += [render(i, s) for i, s in enumerate(sites)]
+    lines.append("#if Q_PART == 0\nstatic void (*const g_sites[])(Ctx&) = {%s};\n#endif" % ", ".join("s%d" % i for i in range(len(sites))))
     path = os.path.join(HERE, "q_main.cpp")
     src = open(path).read()
     a = src.index("// BEGIN GENERATED SITES")
